@@ -430,7 +430,7 @@ class LiveRun:
                 rc["%s|%s|%s" % (s.name, mid, sel)] = {"trades": [self._tl(t) for t in ctx.trades], "live": [self._tl(t) for t in ctx.live_trades], "lastp": 0 if ctx.datetime_last_placed else -1,
                                                        "lastr": 0 if ctx.datetime_last_reset else -1, "mid": mid}
         st["rc"] = rc
-        st["mkt"] = {mid: {"status": mk.market_book.status if mk.market_book is not None else "NONE", "closed": bool(mk.closed), "nlive": len(mk.blotter._live_orders), "nord": len(mk.blotter._orders),
+        st["mkt"] = {mid: {"status": mk.market_book.status if mk.market_book is not None else "NONE", "closed": bool(mk.closed), "ncleared": len(mk.orders_cleared) + len(mk.market_cleared), "nlive": len(mk.blotter._live_orders), "nord": len(mk.blotter._orders),
                            "version": 0, "inplay": False, "betdelay": 0, "bsprec": False, "pt": 0, "removed": [], "nactive": 2, "nwin": 1}
                      for mid, mk in self.fl.markets.markets.items()}
         st["pool"] = [{"kind": KIND_NAME[a[0].package_type], "orders": [self.label_order(o) for o in a[0]._orders], "retry": a[0].retry_count} for (fn, a, kw) in self.pool.thunks]
@@ -514,6 +514,40 @@ class LiveRun:
             self.closed_since[s.get("mid", "1.1")] = self.offset
             self.step("close", mid=s.get("mid", "1.1"), closed_calls=[c for c in self.closed_calls[n0:]], subscribed=[st.name for st in self.strategies],
                       now=int(self.offset), closed_since=since_before)
+        elif op == "cleared":
+            # what the closure worker does once it has fetched the cleared orders / market of a closed market
+            mk = self.fl.markets.markets.get(s.get("mid", "1.1"))
+            if mk is not None and mk.closed:
+                mk.orders_cleared.append(self.client.username)
+                mk.market_cleared.append(self.client.username)
+            self.step("cleared", mid=s.get("mid", "1.1"))
+        elif op == "raw":
+            # raw-data (recorder) mode: dict updates through _process_raw_data; a CLOSED definition is queued as a
+            # CloseMarketEvent holding the dict
+            mid, kind = s.get("mid", "1.1"), s.get("kind", "prices")
+            if kind == "prices":
+                datum = {"id": mid, "rc": [{"id": 11, "ltp": 2.0 + 0.02 * s.get("k", 0)}]}
+            else:
+                st_ = {"def_open": "OPEN", "def_suspended": "SUSPENDED", "def_closed": "CLOSED"}[kind]
+                datum = {"id": mid, "marketDefinition": {"status": st_, "version": s.get("version", 1), "runners": [{"id": 11, "status": "ACTIVE"}, {"id": 12, "status": "ACTIVE"}]}}
+            pre_known = mid in self.fl.markets.markets
+            if kind != "def_closed":
+                self.closed_since.pop(mid, None)
+            n0 = len(self.closed_calls)
+            self.fl._process_raw_data(fevents.RawDataEvent((self.stream_id, "clk", int(time.time() * 1000), [datum])))
+            closes = 0
+            while not self.fl.handler_queue.empty():
+                ev = self.fl.handler_queue.get()
+                if ev.EVENT_TYPE == fevents.EventType.CLOSE_MARKET:
+                    closes += 1
+                    self.fl._process_close_market(ev)
+            if kind == "def_closed":
+                since_before = {m: int(t) for m, t in self.closed_since.items() if m != mid}
+                self.closed_since[mid] = self.offset
+                self.step("close", mid=mid, closed_calls=[c for c in self.closed_calls[n0:]], subscribed=[st.name for st in self.strategies],
+                          now=int(self.offset), closed_since=since_before, raw=True)
+            else:
+                self.step("raw", mid=mid, kind=kind, known=pre_known)
         elif op == "req":
             self.requests(s)
             self.step("req", strat=s.get("strat", "A"))
